@@ -219,6 +219,9 @@ def apply_rewrite(name, text):
                         depth -= 1
                     k += 1
                 var, body = m.group(1), out[m.end():k - 1].strip()
+                if re.search(r"\breturn\b", body):
+                    # `return` inside a closure leaves the closure, inlined it would leave the function: not inlinable
+                    break
             else:
                 k = m.end()
                 var, body = "v_", f"{m.group(2)}(v_)"
